@@ -47,8 +47,10 @@ func zqflat(n int) int {
 }
 
 func main() {
-	fmt.Println("hist", version, zqOther, zqmid.ZqMid(%[2]d), zqflat(9), zqTagged())
+	fmt.Println("hist", version, zqOther, zqmid.ZqMid(%[2]d), zqflat(9), zqTagged(), zqmid.ZqWrapNames(zqMainT{}))
 }
+
+type zqMainT struct{ zqMainF int }
 `, histMod, 3+e["main"]),
 		"tag_a.go":    "//go:build zqtaga\n\npackage main\n\nfunc zqTagged() string { return \"built with tag a\" }\n",
 		"tag_b.go":    "//go:build zqtagb && !zqtaga\n\npackage main\n\nfunc zqTagged() string { return \"built with tag b\" }\n",
@@ -67,13 +69,18 @@ func ZqMid(n int) string {
 	t := ZqMidT{ZqA: zqleaf.ZqLeaf(n), ZqB: "a literal in the middle package"}
 	return t.ZqB + string(rune('0'+t.ZqA%%10))%[2]s
 }
+
+// ZqWrapNames hands its argument on to a reflecting function of the leaf package.
+//
+//go:noinline
+func ZqWrapNames(v any) string { return zqleaf.ZqNames(v) + "+" + zqleaf.ZqNames(ZqMidT{}) }
 `, histMod, func() string {
 			if e["file"] > 0 {
 				return " + zqExtra()"
 			}
 			return ""
 		}()),
-		"zqmid/zqleaf/leaf.go": fmt.Sprintf("package zqleaf\n\n%s//go:noinline\nfunc ZqLeaf(n int) int { return n*%d + len(zqLeafLit) }\n\nvar zqLeafLit = \"leaf literal value\"\n", strings.Repeat("// a comment edit\n", e["comment"]), 7+e["leaf"]),
+		"zqmid/zqleaf/leaf.go": fmt.Sprintf("package zqleaf\n\nimport \"reflect\"\n\n%s//go:noinline\nfunc ZqLeaf(n int) int { return n*%d + len(zqLeafLit) }\n\nvar zqLeafLit = \"leaf literal value\"\n\ntype ZqLeafT struct{ ZqLeafF int }\n\n// ZqNames reflects on its argument: facts about it flow to every dependant through garble's cache.\n//\n//go:noinline\nfunc ZqNames(v any) string {\n\tt := reflect.TypeOf(v)\n\treturn t.Name() + \"/\" + t.Field(0).Name + \"/\" + reflect.TypeOf(ZqLeafT{}).Name()\n}\n", strings.Repeat("// a comment edit\n", e["comment"]), 7+e["leaf"]),
 	}
 	if e["file"] > 0 {
 		files["zqmid/extra.go"] = fmt.Sprintf("package zqmid\n\nfunc zqExtra() string { return \"extra file v%d\" }\n", e["file"])
@@ -209,6 +216,8 @@ func checkC06(c *Ctx) {
 	histories = append(histories,
 		[]step{{byName["K2"], ""}, {byName["K2+X1"], ""}, {byName["K2+X2"], ""}, {byName["K2"], ""}},
 		[]step{{byName["K2+X1"], ""}, {byName["K0+X1"], ""}, {byName["K2+X2"], ""}, {byName["K0+X2"], ""}, {byName["K2"], "main"}},
+		// edits in a reflecting dependency: the dependants' cached reflection facts must not go stale
+		[]step{{byName["K0"], ""}, {byName["K0"], "leaf"}, {byName["K0"], "leaf"}, {byName["K0"], "comment"}, {byName["K0"], "main"}, {byName["K0"], "file"}},
 	)
 	nh, hl := c.pick(2, 10), c.pick(6, 10)
 	for h := 0; h < nh; h++ {
